@@ -101,6 +101,11 @@ func nsOp(m *ref.Model, sr *sharedReader, id int, op string) string {
 	drawn := append([]byte(nil), sr.draws[id][before:]...)
 	sr.mu.Unlock()
 	if err != nil {
+		if len(parts) > 3 && parts[3] == "F" && s == "" {
+			// the source of this call broke down: an error and no mnemonic is what the call gives
+			// alone, whatever the wording or wrapping of the error
+			return "NS-failed-closed"
+		}
 		return "NS-ERROR:" + err.Error()
 	}
 	if len(drawn) != n+n/3 {
